@@ -1,1 +1,6 @@
 import Props.C19
+import Props.C05
+import Props.C06
+import Props.C15
+import Props.C18
+import Props.C14
